@@ -215,13 +215,16 @@ def txAddH (acc : List Nat) (c : Content) : List Nat :=
 
 def txUnionH (cs : List Content) : List Nat := cs.foldl txAddH []
 
-/-- Send `o` to the senders in order; the first dropped receiver makes the handler return early, which drops
-the remaining senders (their live receivers observe `closed`). -/
+/-- Send `o` to the senders in order (`send_to_all`). With `Gen.sendServesAllCallers` a dropped receiver is only
+remembered (the handler returns `InternalMsgChannelDropped` after every sender was served); without it (`?` on the
+result of `send` inside the loop) the first dropped receiver makes the handler return early, which drops the
+remaining senders (their live receivers observe `closed`). -/
 def deliver (hung : List Nat) : List Nat → Outcome → List (Nat × Outcome) × Bool
   | [], _ => ([], true)
   | c :: cs, o =>
     if hung.contains c then
-      ((cs.filter (fun x => !hung.contains x)).map (fun x => (x, Outcome.closed)), false)
+      if sendServesAllCallers then ((deliver hung cs o).1, false)
+      else ((cs.filter (fun x => !hung.contains x)).map (fun x => (x, Outcome.closed)), false)
     else
       let r := deliver hung cs o
       ((c, o) :: r.1, r.2)
@@ -320,7 +323,8 @@ def run (ops : List Op) : State := ops.foldl (fun s op => (step s op).1) {}
 
 /-! ## `Network::handle_split_record_error`
 
-`order` is the iteration order of `result_map.values()` (a choice witness: any duplicate-free order is legal). -/
+`order` is the order in which the versions are visited (see `visitOrder` at the end of this file: ascending
+content hash with `Gen.splitVisitsInKeyOrder`, else the iteration order of `result_map.values()`). -/
 
 def kindOf : Content → Option Kind
   | .junk _ => none
@@ -342,15 +346,21 @@ def regOps : Content → List Nat
   | .reg _ _ ops => ops
   | _ => []
 
+/-- the `merge` op reads the record key of the scratchpad of pad owner 0 -/
+def mergeKeyOwner : Nat := 0
+
+/-- a scratchpad the split handling considers: `is_valid()` and — with the address check of the `Scratchpad` arm
+(`splitPadChecksKey`) — living at the record key being read, i.e. owned by `mergeKeyOwner`; a validly signed pad of
+another owner is skipped like an unsigned one -/
 def padValid : Content → Bool
-  | .pad _ _ _ v => v
+  | .pad o _ _ v => v && (!splitPadChecksKey || o == mergeKeyOwner)
   | _ => false
 
 def padCount : Content → Nat
   | .pad _ c _ _ => c
   | _ => 0
 
-/-- keep the first valid scratchpad with the highest counter (`old.count() >= new.count()` keeps `old`) -/
+/-- keep the first valid scratchpad (of the key being read) with the highest counter (`old.count() >= new.count()` keeps `old`) -/
 def padStep (best : Option Content) (c : Content) : Option Content :=
   if padValid c then
     match best with
@@ -379,5 +389,25 @@ def mergeSplit (order : List Content) : Option Content :=
         let mergeable := (r0 :: rest).filter (fun r => regBase r == regBase r0)
         some (.reg (regBase r0) true (mergeable.foldl (fun acc r => unionInto acc (regOps r)) []))
     | .pad => bestPad same
+
+/-! ### The result map and the order in which it is visited
+
+A result map is a list of `(content hash, version)` entries in the `HashMap`'s own (arbitrary) iteration order; the
+hashes are natural numbers and — being the keys of a map — pairwise distinct. -/
+
+/-- insertion into a list sorted by key -/
+def insertByKey (x : Nat × Content) : List (Nat × Content) → List (Nat × Content)
+  | [] => [x]
+  | y :: ys => if x.1 ≤ y.1 then x :: y :: ys else y :: insertByKey x ys
+
+/-- `versions.sort_by_key(|(content_hash, _)| **content_hash)` -/
+def sortByKey (m : List (Nat × Content)) : List (Nat × Content) := m.foldr insertByKey []
+
+/-- the order in which `handle_split_record_error` visits the versions of the result map `m` -/
+def visitOrder (m : List (Nat × Content)) : List Content :=
+  (if splitVisitsInKeyOrder then sortByKey m else m).map (·.2)
+
+/-- `handle_split_record_error` on a result map -/
+def mergeSplitMap (m : List (Nat × Content)) : Option Content := mergeSplit (visitOrder m)
 
 end SafeNet.Quorum
